@@ -82,10 +82,23 @@ func (c Call) String() string {
 type Delivery struct {
 	Req     int
 	Box     string // box IRI the transport was created for
-	Payload []byte
+	Payload []byte // copy taken when the transport was called
+	Held    []byte // the very slice the library handed over (a queueing transport keeps it)
 	To      []string
 	LogPos  int
 	Batch   bool
+}
+
+// HeldPayloadsChanged lists deliveries whose handed-over slice no longer holds the bytes it held when
+// the transport was called: the library reused a buffer it had given away.
+func (a *App) HeldPayloadsChanged() []string {
+	var out []string
+	for i, d := range a.Deliveries {
+		if d.Held != nil && string(d.Held) != string(d.Payload) {
+			out = append(out, fmt.Sprintf("delivery %d (to %v): the handed-over payload now reads %.80q, it was %.80q", i, d.To, d.Held, d.Payload))
+		}
+	}
+	return out
 }
 
 // Viol is one lock-discipline violation seen by the monitor.
